@@ -109,6 +109,12 @@ func (gc *primaryGC) run(interval, timeLimit time.Duration) {
 // of storage reclaimed.
 func (gc *primaryGC) gc(ctx context.Context, lowUsePercent int64, timeLimit time.Duration) (int64, error) {
 	gc.reclaimed = 0
+	// The freelist may name records that are still in the primary's write
+	// pools. Write them out first, otherwise those freelist entries cannot be
+	// applied and are dropped with the processed freelist file.
+	if _, err := gc.primary.Flush(); err != nil {
+		return 0, fmt.Errorf("cannot flush primary: %w", err)
+	}
 	affectedSet, err := processFreeList(ctx, gc.freeList, gc.primary.basePath, gc.primary.maxFileSize)
 	if err != nil {
 		if err == context.DeadlineExceeded {
